@@ -119,10 +119,25 @@ def build_gm2calc(repo=None):
     exe = os.path.join(cdir, 'gm2calc.x')
     if os.path.exists(exe):
         return exe
+    # several checks may run concurrently: one builder at a time, the others wait and then find the finished cache
+    import fcntl
+    os.makedirs(os.path.join(WORK, 'cache'), exist_ok=True)
+    with open(os.path.join(WORK, 'cache.lock'), 'w') as lk:
+        fcntl.flock(lk, fcntl.LOCK_EX)
+        try:
+            return _build_gm2calc_locked(repo, srcs, cdir, exe)
+        finally:
+            fcntl.flock(lk, fcntl.LOCK_UN)
+
+def _build_gm2calc_locked(repo, srcs, cdir, exe):
+    import concurrent.futures
+    if os.path.exists(exe):
+        return exe
+    shutil.rmtree(cdir, ignore_errors=True)      # a half-built directory of an interrupted run
     os.makedirs(cdir, exist_ok=True)
     # keep the cache small
     root = os.path.join(WORK, 'cache')
-    for d in sorted(os.listdir(root), key=lambda d: os.path.getmtime(os.path.join(root, d)))[:-3]:
+    for d in sorted((d for d in os.listdir(root) if os.path.join(root, d) != cdir), key=lambda d: os.path.getmtime(os.path.join(root, d)))[:-2]:
         shutil.rmtree(os.path.join(root, d), ignore_errors=True)
     ver = os.path.join(cdir, 'gm2calc')
     os.makedirs(ver, exist_ok=True)
@@ -141,9 +156,10 @@ def build_gm2calc(repo=None):
         return o
     with concurrent.futures.ThreadPoolExecutor(max_workers=12) as ex:
         objs = list(ex.map(comp, srcs))
-    r = subprocess.run(['g++'] + objs + ['-o', exe], capture_output=True, text=True)
+    r = subprocess.run(['g++'] + objs + ['-o', exe + '.tmp'], capture_output=True, text=True)
     if r.returncode != 0:
         raise NativeError('link failed:\n%s' % r.stderr[-2000:])
+    os.rename(exe + '.tmp', exe)                 # the executable appears only when every object is complete
     return exe
 
 def build_against_library(wd, main_src, name='prog', repo=None):
